@@ -372,11 +372,13 @@ def remove_dot_segments(path):
 
 # ---------------------------------------------------------------- RFC 7252 6.4
 
-Decomp = namedtuple("Decomp", "scheme host uri_host uri_host_alt port effport path query has_query path_literal escaped_dots")
+Decomp = namedtuple("Decomp", "scheme host uri_host uri_host_alt port effport path query has_query path_literal escaped_dots ambiguous_host")
 # host: Host (name value = Uri-Host); uri_host: option value or None for IP literals; uri_host_alt: the
 # other order of "lower-case" and "percent-decode" (equivalent host, differs only for escaped upper-case letters);
 # port: int or None as written; effport: port or the scheme default; path/query: tuples of text;
 # path_literal: the segments if dot segments were NOT removed (== path when there are none);
+# ambiguous_host: a reg-name with escapes that decodes to an IPv4address ("%31.2.3.4"): a name by the grammar, an address
+# after RFC 3986 6.2.2.2 normalisation; callers should not judge such text;
 # escaped_dots: a segment is written %2E / %2E%2E / .%2E ...: RFC 7252 contradicts itself there (6.4 step 2 removes only
 # literal dot segments, 5.10.1 forbids the resulting option values), callers should not judge such text
 
@@ -427,7 +429,8 @@ def decompose(text, iri=False):
     if p.query is not None:
         query = tuple(pct_decode_text(a) for a in p.query.split("&"))
     escaped_dots = any("%" in raw and pct_decode(raw) in (b".", b"..") for raw in p.path.split("/")[1:])
-    return Decomp(scheme, host, uri_host, uri_host_alt, port, port if port is not None else DEFAULT_PORT[scheme], path, query, p.query is not None, path_literal, escaped_dots)
+    ambiguous_host = host.kind == "name" and "%" in p.host and parse_ipv4(uri_host) is not None
+    return Decomp(scheme, host, uri_host, uri_host_alt, port, port if port is not None else DEFAULT_PORT[scheme], path, query, p.query is not None, path_literal, escaped_dots, ambiguous_host)
 
 
 def classify(text):
@@ -615,6 +618,7 @@ def selftest():
     assert decompose("coap://h/?").query == ("",) and decompose("coap://h/?").has_query and not decompose("coap://h/").has_query
     assert decompose("coap://h/a/%2E%2e/b").escaped_dots and not decompose("coap://h/a/../b%2E").escaped_dots
     assert classify("coap://h:1 2/")[0] == "notauri" and classify("coap://h:1a/") == ("reject", "port-non-numeric")
+    assert decompose("coap://%31.2.3.4/").ambiguous_host and not decompose("coap://1.2.3.4/").ambiguous_host and not decompose("coap://h%31/").ambiguous_host
     assert decompose("coap://h/a%FF/../b").path == ("b",) and decompose("coap://h/a%FF/../b").path_literal is None
     assert decompose("coap://h/a/../b/./c").path == ("b", "c") and decompose("coap://h/a/../b/./c").path_literal == ("a", "..", "b", ".", "c")
     d = decompose("coap://[FE80::0001%25eth0]:1/")
